@@ -3,6 +3,7 @@ package main
 import (
 	"fmt"
 	"go/ast"
+	"go/constant"
 	"go/types"
 	"strings"
 
@@ -48,8 +49,77 @@ func init() {
 			lf.raw(fmt.Sprintf("def %sWritesTmp : Bool := %v\n", fn.lean, writes))
 			lf.raw(fmt.Sprintf("def %sTmpExpr : String := %q\n\n", fn.lean, expr))
 		}
+		// how much of the file GetFavorites hands back: io.ReadAll on the opened file (no limit) or
+		// through io.LimitReader(file, N) with a constant N
+		lf.raw(fmt.Sprintf("/-- %s -/\ndef getFavoritesReadLimit : Option Nat := %s\n\n", "none: the whole file is read; some n: at most n bytes are read", favReadLimit(pp, "GetFavorites")))
 		lf.write(out)
 	})
+}
+
+// favReadLimit: the limit on the bytes read by the io.ReadAll / os.ReadFile call of fn, as a Lean term.
+// An unrecognised reader is reported as `some 0` (nothing is known to be handed back).
+func favReadLimit(p *packages.Package, fn string) string {
+	var body *ast.BlockStmt
+	for _, f := range p.Syntax {
+		for _, d := range f.Decls {
+			if fd, ok := d.(*ast.FuncDecl); ok && fd.Name.Name == fn && fd.Body != nil {
+				body = fd.Body
+			}
+		}
+	}
+	if body == nil {
+		fatal("fav: no function %s in %s", fn, p.PkgPath)
+	}
+	isSel := func(e ast.Expr, pkg, name string) bool {
+		sel, ok := e.(*ast.SelectorExpr)
+		if !ok || sel.Sel.Name != name {
+			return false
+		}
+		x, ok := sel.X.(*ast.Ident)
+		return ok && x.Name == pkg
+	}
+	result := ""
+	n := 0
+	ast.Inspect(body, func(m ast.Node) bool {
+		ce, ok := m.(*ast.CallExpr)
+		if !ok {
+			return true
+		}
+		switch {
+		case isSel(ce.Fun, "os", "ReadFile") && len(ce.Args) == 1:
+			n++
+			result = "none"
+		case (isSel(ce.Fun, "io", "ReadAll") || isSel(ce.Fun, "ioutil", "ReadAll")) && len(ce.Args) == 1:
+			n++
+			switch a := ast.Unparen(ce.Args[0]).(type) {
+			case *ast.Ident:
+				// must be the *os.File itself
+				if t := p.TypesInfo.TypeOf(a); t != nil && t.String() == "*os.File" {
+					result = "none"
+				} else {
+					result = "some 0"
+				}
+			case *ast.CallExpr:
+				result = "some 0"
+				if isSel(a.Fun, "io", "LimitReader") && len(a.Args) == 2 {
+					if tv, ok := p.TypesInfo.Types[a.Args[1]]; ok && tv.Value != nil {
+						if v, ok := constant.Int64Val(constant.ToInt(tv.Value)); ok && v >= 0 {
+							if t := p.TypesInfo.TypeOf(a.Args[0]); t != nil && t.String() == "*os.File" {
+								result = fmt.Sprintf("some %d", v)
+							}
+						}
+					}
+				}
+			default:
+				result = "some 0"
+			}
+		}
+		return true
+	})
+	if n != 1 {
+		return "some 0"
+	}
+	return result
 }
 
 func favStrList(name string, vals []string) string {
